@@ -26,4 +26,17 @@ var _ = Service("svc", func() {
 		})
 		HTTP(func() { POST("/second") })
 	})
+	// the body is one attribute that is required and has a default
+	Method("third", func() {
+		Payload(func() {
+			Attribute("items", ArrayOf(String), func() { Default([]string{"d"}) })
+			Attribute("q", Int)
+			Required("items")
+		})
+		HTTP(func() {
+			POST("/third")
+			Param("q")
+			Body("items")
+		})
+	})
 })
